@@ -210,9 +210,35 @@ class Reader:
         self.consume_keyword("at")
         alignment = self.parse_integer()
         self.consume(")")
-        variable = ir.Variable(name, binding, amount, alignment)
+        value = None
+        if self.peek == "=":
+            self.consume("=")
+            value = self.parse_initial_value()
+        variable = ir.Variable(name, binding, amount, alignment, value=value)
         self.define_value(variable)
         return variable
+
+    def parse_initial_value(self):
+        """Parse the initial value of a variable: '[' part {',' part} ']'
+
+        A part is a hex string or the address of a label (&name).
+        """
+        parts = []
+        self.consume("[")
+        if self.peek != "]":
+            parts.append(self.parse_initial_value_part())
+            while self.peek == ",":
+                self.consume(",")
+                parts.append(self.parse_initial_value_part())
+        self.consume("]")
+        return tuple(parts)
+
+    def parse_initial_value_part(self):
+        if self.peek == "STRING":
+            return unhexlify(self.consume("STRING")[1])
+        else:
+            self.consume("&")
+            return (ir.ptr, self.parse_id())
 
     def parse_function(self, binding):
         """Parse a function or procedure"""
